@@ -6,6 +6,7 @@ package checks
 // exhaustive part.
 
 import (
+	"strings"
 	"fmt"
 	"math"
 	"testing"
@@ -57,7 +58,7 @@ func expectedAt(items []val.Value, positions []float64) val.Value {
 // TestC02_Positions: array lengths 0..5 x positions -7..7 in steps of 0.5 x
 // head kinds x index supply modes, and all index arrays of length 2 over -3..3.
 func TestC02_Positions(t *testing.T) {
-	rec := begin(t, "C02", "exhaustive: array lengths 0..5 x positions -7..7 in steps of 0.5 x head kinds {name step in a path, variable, array constructor, parenthesised path} x {literal index, index read from the document, single-element index array}, plus every index array of length 2 over -3..3 (literal and read from the document); checked against the reference evaluator AND against a direct statement of the positional rule; every case is non-trivial; distinct by (length, position(s), head, supply mode)")
+	rec := begin(t, "C02", "exhaustive: array lengths 0..5 x positions -7..7 in steps of 0.5 x head kinds {name step in a path, variable, array constructor, parenthesised path} x {literal index, index read from the document, single-element index array, index computed by $count / $length (Go integers inside the library)}, plus every index array of length 2 over -3..3 (literal and read from the document); checked against the reference evaluator AND against a direct statement of the positional rule; every case is non-trivial; distinct by (length, position(s), head, supply mode)")
 	defer finish(t, rec)
 	n := 0
 	check := func(prog *ast.Node, doc val.Value, key string, items []val.Value, positions []float64) bool {
@@ -112,7 +113,7 @@ func TestC02_Positions(t *testing.T) {
 		}
 		for pos := -7.0; pos <= 7.0; pos += 0.5 {
 			for _, hk := range heads {
-				for _, mode := range []string{"literal", "doc", "array1"} {
+				for _, mode := range []string{"literal", "doc", "array1", "count", "length", "countArray"} {
 					doc := val.O(map[string]val.Value{"x": val.A(items...), "i": val.N(pos)})
 					head, wrap := mkHead(hk, items)
 					var idx *ast.Node
@@ -121,6 +122,25 @@ func TestC02_Positions(t *testing.T) {
 						idx = ast.NumN(pos)
 					case "doc":
 						idx = ast.PathN(ast.VarN("$"), ast.NameN("i"))
+					case "count", "length", "countArray":
+						// an index computed by a built-in (a Go integer inside the library)
+						if pos < 0 || pos != math.Floor(pos) {
+							continue
+						}
+						cs := make([]val.Value, int(pos))
+						for i := range cs {
+							cs[i] = val.N(1)
+						}
+						doc.O["c"] = val.A(cs...)
+						doc.O["s"] = val.S(strings.Repeat("é", int(pos)))
+						switch mode {
+						case "count":
+							idx = ast.CallN("count", ast.PathN(ast.VarN("$"), ast.NameN("c")))
+						case "length":
+							idx = ast.CallN("length", ast.PathN(ast.VarN("$"), ast.NameN("s")))
+						default:
+							idx = ast.ArrN(ast.CallN("count", ast.PathN(ast.VarN("$"), ast.NameN("c"))))
+						}
 					default:
 						idx = ast.ArrN(ast.NumN(pos))
 					}
